@@ -398,6 +398,53 @@ func runC03(p *Prog, l *Ledger) {
 			}
 			l.Count("paths", npaths)
 			l.Check(len(bad) == 0 && npaths > 0, "O1", p.Key(s.Try), p.FuncPos(s.Try), fmt.Sprintf("%d paths; refuse iff total.busy >= total.limit and the bin is at its share; the first match decides", npaths), "the admission predicate is wrong", bad...)
+			// "the first registered one is charged": the list keeps registration order - nothing overwrites an element of it in
+			// place (swap-remove), sorts, reverses or shuffles it; it only grows by append and shrinks by rebuilding
+			for _, src := range s.Sources {
+				if _, isSlice := structOf(s.T).Field(src.Index).Type().(*types.Slice); !isSlice {
+					continue
+				}
+				var obad []string
+				fromList := func(v ssa.Value) bool {
+					for i := 0; i < 8; i++ {
+						v = strip(v, false)
+						if sl, ok := v.(*ssa.Slice); ok {
+							v = sl.X
+							continue
+						}
+						break
+					}
+					fr, _, ok := fieldPointerLoad(v)
+					return ok && sameField(fr, src)
+				}
+				for _, f := range p.Funcs {
+					if !p.InPkg(f, p.PkgOf(s.Try)) {
+						continue
+					}
+					allInstrs(f, func(ins ssa.Instruction) {
+						switch x := ins.(type) {
+						case *ssa.Store:
+							if ia, ok := x.Addr.(*ssa.IndexAddr); ok && fromList(ia.X) {
+								obad = append(obad, fmt.Sprintf("%s: an element of the partition list is overwritten in place: the remaining partitions lose their registration order", p.At(ins)))
+							}
+						case *ssa.Call:
+							c := p.CallOf(x)
+							if c.Static == nil || p.InModule(c.Static) {
+								return
+							}
+							n := c.Name
+							if strings.HasPrefix(n, "sort.") || strings.HasPrefix(n, "slices.Sort") || strings.HasPrefix(n, "slices.Reverse") || strings.Contains(n, "rand.Shuffle") || strings.HasPrefix(n, "(*math/rand.Rand).Shuffle") {
+								for _, a := range x.Call.Args {
+									if fromList(a) {
+										obad = append(obad, fmt.Sprintf("%s: the partition list is reordered by %s", p.At(ins), n))
+									}
+								}
+							}
+						}
+					})
+				}
+				l.Check(len(obad) == 0, "O1", p.TypeKey(s.T)+"/registration-order/"+src.Name, p.FuncPos(s.Try), "the partition list is only appended to or rebuilt; nothing reorders it", "overlapping predicates can be charged to a partition other than the first registered one", obad...)
+			}
 		}
 		// ---------------- O2
 		{
